@@ -143,6 +143,14 @@ def _check(cx):
             bad = lang_check(g, 'store down', ev, exact=True, empty_ok=False)
             res.append(Finding(ID, 'B1', label, not bad, ('the value cell must be written before the broadcast (peek() inside a callback and late subscribers must see the new value): ' + bad[0]) if bad else
                                'value cell written, then broadcast', fn['span'], bad[1] if bad else None))
+            # B11: what is broadcast is the incoming item itself (or its clone), not a re-read of the value cell: between the store
+            # and a re-read another producer may have stored its own item, which is then delivered twice while this one is lost
+            bc = [n for n in g.nodes if n['kind'] in ('call', 'enter') and n['name'] == 'observer::Observer::next' and not n['ctx']]
+            stale = [n for n in bc if len(n['args']) < 2 or not mentions(n['args'][1], lambda e: e[0] == 'arg' and e[1] == 2)]
+            res.append(Finding(ID, 'B11', label, bool(bc) and not stale,
+                               'the broadcast item is the incoming item' if bc and not stale else
+                               'next() broadcasts something else than the item it was given (a value read back from the shared cell): with two producers the cell may already hold the other producer\'s item at the re-read - that item is delivered twice and this one never',
+                               g.loc(stale[0]) if stale else fn['span'], [node_desc(g, n) for n in stale]))
             if tag == TAG:
                 held = lock_scopes(g)
                 downs = [n for n in g.nodes if n['kind'] in ('call', 'enter') and n['name'] == 'observer::Observer::next' and not n['ctx']]
